@@ -418,6 +418,29 @@ static void c10_tests()
   }
 }
 
+// ---------------------------------------------------------------- C10: the pointer of a range request is read from sandbox memory
+static void c10_ptr_tests()
+{
+  Cell<int*> cell;
+  // the raw pointer handed out is used with the APPLICATION's element size: that is the extent checked
+  const long gi = sizeof(int);
+  for (long count : { 1L, 4L, 16L }) {
+    for (auto script : std::vector<std::vector<W>>{ { 2048, 3072 }, { 2048, SIZE - gi }, { SIZE - 16 * gi, SIZE - 2 * gi }, { 2048, SIZE - 1 },
+                                                    { 2048, 0 }, { 0, 2048 }, { SIZE - gi, 2048 }, { 1024 } }) {
+      const volatile void* res = nullptr;
+      cell.arm(script);
+      const char* r = guarded([&] { res = cell.ref().unverified_safe_pointer_because((size_t)count, "recorded by the harness"); });
+      lw::disarm();
+      tr::Ev e("fetch");
+      e.str("kind", "safeptr").str("what", "unverified_safe_pointer_because").num("gs", gi).num("count", count).num("size", SIZE);
+      put_script(e, script);
+      bool ok = std::strcmp(r, "ok") == 0;
+      e.str("out", r).boolean("rnull", ok && res == nullptr).wide("r", ok && res != nullptr ? rel(res) : 0).num("reads", lw::g.reads);
+      out.put(e);
+    }
+  }
+}
+
 // ---------------------------------------------------------------- C09: verified copies of one cell
 template<typename N>
 static void verify_case(std::vector<std::vector<W>> scr)
@@ -734,6 +757,7 @@ int main(int argc, char** argv)
     c03_tests();
   } else if (mode == "c10") {
     c10_tests();
+    c10_ptr_tests();
   } else {
     return 2;
   }
